@@ -5,6 +5,7 @@ cd "$(dirname "$0")"
 export CARGO_NET_OFFLINE=true
 python3 tools/gen_table.py /repo coq/gen
 (cd harness && RUSTFLAGS="--cfg chemical_elements_verif" cargo build --release --offline -q)
+(cd harness_c && RUSTFLAGS="--cfg chemical_elements_verif" cargo build --release --offline -q)
 # -k: a proof that no longer checks must not stop the others from being built; each check
 # re-runs make on its own targets and reports what is broken
 (cd coq && coq_makefile -f _CoqProject -o Makefile >/dev/null && (timeout 3000 make -k -j16 >/dev/null 2>coq_build.err || (echo "setup: some Coq targets did not build:"; grep -E "Error|\*\*\*" coq_build.err | head -20)))
